@@ -54,7 +54,11 @@ Definition mem_delta_ok (pre post : bmem) (delta : list (Z * Z)) : bool :=
   Bool.eqb (bm_big pre) (bm_big post) && bytes_delta_ok (bm_bytes pre) (bm_bytes post) delta.
 
 (* ---------- tie ---------- *)
-Definition no_lift : bmem -> Z -> res func := fun _ _ => Err EOther.
+(* the re-lifting oracle of the generated cases: their memory holds no code, and for unmapped memory the
+   translator returns a function with one empty block (observed; then `from_address` misses again and
+   the step ends with Err(Custom "Failed to get location for newly lifted function")) *)
+Definition no_lift : bmem -> Z -> res func :=
+  fun _ a => Ok (mkfunc a (mkcfg [mkblock 0 0 [] []] [] 1 (Some 0) None) None).
 
 Definition xdelta_ok (pre post : xstate) (o : ostep) : bool :=
   scal_eqb (fold_left (fun s kv => sset s (fst kv) (snd kv)) (os_scal o) (x_scal pre)) (x_scal post) &&
